@@ -794,7 +794,10 @@ fn run_type<T: MomT>(h: &Value, ops: &[Op], specs: &[SlotSpec], cxs: &[Ctx], wan
         return;
     }
     for e in &want.embeddings {
-        replay_one::<T>(h, ops, specs, cxs, e, want, rep);
+        let r = std::panic::catch_unwind(std::panic::AssertUnwindSafe(|| replay_one::<T>(h, ops, specs, cxs, e, want, &mut *rep)));
+        if r.is_err() {
+            viol::<T>(rep, &want.prop, e, h, 0, "panic", "the code under test panicked outside an accessor (new / add / merge / clone / serde)".into(), json!({}));
+        }
     }
 }
 
